@@ -119,6 +119,22 @@ class SourceIndex:
         self.modules = {}
 
     def module(self, name):
+        if name not in self.modules and name.startswith("pyx:"):
+            # "pyx:<relative path>:<ClassName>": a plain-Python class extracted mechanically from a .pyx file
+            _, rel, cls = name.split(":")
+            path = os.path.join(self.repo, rel)
+            if not os.path.exists(path):
+                raise AnchorLost(f"{rel} not found")
+            text, l0, l1 = extract_pyx_class(path, cls)
+            m = ModuleInfo.__new__(ModuleInfo)
+            m.name, m.path, m.text = name, path, text
+            m.lines = text.split("\n")
+            m.tree = ast.parse(text)
+            m.functions, m.classes, m.assigns, m.imports, m.lambdas = {}, {}, {}, {}, {}
+            for node in m.tree.body:
+                m._top(node)
+            m.pyx_span = (l0, l1)
+            self.modules[name] = m
         if name not in self.modules:
             rel = name.replace(".", "/")
             cands = [os.path.join(self.repo, rel + ".py"), os.path.join(self.repo, rel, "__init__.py")]
@@ -138,7 +154,7 @@ class SourceIndex:
             return False
 
     def func(self, key):
-        mod, qn = key.split(":")
+        mod, qn = key.rsplit(":", 1)
         m = self.module(mod)
         parts = qn.split(".")
         if len(parts) == 1:
@@ -151,7 +167,7 @@ class SourceIndex:
         raise AnchorLost(f"function {key} not found")
 
     def cls(self, key):
-        mod, name = key.split(":")
+        mod, name = key.rsplit(":", 1)
         m = self.module(mod)
         if name in m.classes:
             return m.classes[name]
